@@ -483,6 +483,8 @@ def c_scomb(case):
         return "(KFlatMap %s)" % c_gcode(case["g"])
     if c == "lazy":
         return "(KLazy %d%%nat %s)" % (case["init_pends"], g_bool(case["init_ok"]))
+    if c == "unzip" and source_variant("sinktools/src/unzip.rs", "closed_0"):
+        return "KUnzipF"
     return {"flatten": "KFlatten", "unzip": "KUnzip"}[c]
 
 
